@@ -7,7 +7,8 @@
    [line_start a s] = s is 0 or follows an LF. *)
 From Coq Require Import Sorting.Sorted.
 From GixV.Base Require Import Bytes BytesFacts Outcome.
-From GixV.C19 Require Import Model Spec ProofsSearch ProofsParse ProofsLocate ProofsMain.
+From Coq Require Import Sorting.Permutation.
+From GixV.C19 Require Import Model Spec ProofsSearch ProofsParse ProofsLocate ProofsMain ProofsOpen ProofsFront ProofsIter.
 
 (* core::slice::binary_search_by, for any probe function that is monotone (all Less, then all Equal, then all Greater)
    over the indices and whose side flag never fires: it reports a hit exactly when some index
@@ -61,6 +62,64 @@ Theorem find_total : forall a name,
   try_find_full_name a name <> Err EName.
 Proof. exact L_find_total. Qed.
 
+(* a file whose header declares it sorted is used as it is (nothing is checked at open) *)
+Theorem open_trusts_sorted_header : forall traits crlf rest, no_eol traits -> declares_sorted traits = true ->
+  open_buffer (header_line traits crlf ++ rest) = Ok rest.
+Proof. exact L_open_sorted. Qed.
+
+(* a well-formed file NOT declared sorted (no header, or a header without the `sorted` trait), in any
+   record order, LF or CRLF: open re-reads it with the linear iterator, sorts stably by name and writes
+   LF-only text ... *)
+Theorem open_sorts_unsorted : forall h xs, header_ok h false -> wf_file xs ->
+  open_buffer (opt_header h ++ ser_file xs) = Ok (serialize (sort_by_name (map fst xs))).
+Proof. exact L_open_unsorted. Qed.
+
+(* ... and a lookup in the opened buffer is the linear scan of the file's own records, whatever their
+   order (names pairwise different) *)
+Theorem unsorted_open_then_find_is_linear_scan : forall h xs name,
+  header_ok h false -> wf_file xs -> NoDup (map r_name (map fst xs)) ->
+  exists a, open_buffer (opt_header h ++ ser_file xs) = Ok a /\
+            try_find_full_name a name = Ok (find_first name (map fst xs)).
+Proof. exact L_open_then_find. Qed.
+
+(* the sort used by open: a permutation, ascending, stable insertion of equal names *)
+Theorem sort_is_sorted_permutation : forall rs,
+  Permutation rs (sort_by_name rs) /\ weakly_sorted (sort_by_name rs).
+Proof. intros rs. split; [apply sort_perm | apply sort_sorted]. Qed.
+
+(* the public Buffer::try_find on a name that is looked up verbatim (see is_direct) against the
+   linear iteration of Buffer::iter (the property's observation point): the iterator yields every
+   record and no error, and the lookup equals the scan of what it yields *)
+Theorem lookup_equals_iter_scan : forall xs name,
+  wf_file xs -> strictly_sorted (map fst xs) -> is_direct name = true ->
+  exists items, iter_all (ser_file xs) = Ok items /\
+    Forall (fun i => match i with IOk _ => True | IErr _ => False end) items /\
+    try_find (ser_file xs) name = Ok (find_first name (oks items)).
+Proof. exact L_lookup_equals_iter_scan. Qed.
+
+(* an invalid name is refused before the buffer is looked at *)
+Theorem invalid_name_is_refused : forall a n, valid_partial_name n = false -> try_find a n = Err EName.
+Proof. exact L_try_find_invalid. Qed.
+
+(* for ANY bytes: the linear iterator terminates within the model's fuel (one step per byte) *)
+Theorem iterator_terminates : forall fuel cur, (length cur <= fuel)%nat ->
+  exists items, iter_go fuel None cur = Ok items.
+Proof. exact iter_go_total. Qed.
+
+(* for ANY bytes: the iterator yields every record the decoder can read at the start of a line
+   ([pre] is empty or ends with LF) — the linear scan misses nothing that a lookup could return *)
+Theorem iterator_yields_every_line_start_record : forall fuel cur pre suf r rest,
+  (length cur <= fuel)%nat -> cur = pre ++ suf -> lf_terminated pre -> parse_ref suf = Some (r, rest) ->
+  exists items, iter_go fuel None cur = Ok items /\ In (IOk r) items.
+Proof. exact iter_visits. Qed.
+
+(* for ANY bytes (sorted or not, parseable or not): a record returned by the lookup carries the wanted
+   name and is one of the records the linear iteration of the same buffer yields *)
+Theorem found_record_is_an_iterated_record : forall a name r,
+  try_find_full_name a name = Ok (Some r) ->
+  r_name r = name /\ exists items, iter_go (length a) None a = Ok items /\ In (IOk r) items.
+Proof. exact L_found_is_iterated. Qed.
+
 (* non-vacuity: a CRLF/LF mixed file with a peeled line and names that are prefixes of each other *)
 Definition ex_h (c : byte) : bytes := repeat c 40.
 Definition ex_file : list frec :=
@@ -78,3 +137,21 @@ Example ex_lookup :
   /\ try_find_full_name (ser_file ex_file) (bs "refs/heads/a-") = Ok None
   /\ try_find_full_name (bs "x") (bs "refs/heads/a") = Err EParse.
 Proof. repeat split. Qed.
+
+Example ex_direct : is_direct (bs "refs/heads/a-b") = true /\ is_direct (bs "refs/tags/v1.0") = true
+  /\ is_direct (bs "refs/worktree/x") = false /\ is_direct (bs "HEAD") = false.
+Proof. repeat split. Qed.
+(* an unsorted CRLF file with a non-sorted header *)
+Example ex_unsorted :
+  header_ok (Some (bs "peeled fully-peeled ", true)) false /\ wf_file (rev ex_file) /\
+  NoDup (map r_name (map fst (rev ex_file))) /\
+  exists a, open_buffer (opt_header (Some (bs "peeled fully-peeled ", true)) ++ ser_file (rev ex_file)) = Ok a /\
+    try_find a (bs "refs/heads/a/b") = Ok (Some (mk_pref (bs "refs/heads/a/b") (ex_h x34) (Some (ex_h x35)))).
+Proof.
+  split; [split; reflexivity|]. split; [repeat constructor|]. split.
+  - repeat constructor; cbn; intuition discriminate.
+  - eexists. split; reflexivity.
+Qed.
+Example ex_sorted_header : declares_sorted (bs "peeled fully-peeled sorted ") = true
+  /\ declares_sorted (bs "peeled sortedx") = false.
+Proof. split; reflexivity. Qed.
